@@ -1,0 +1,12 @@
+//go:build verif
+
+package cleaner
+
+// VerifIdleInvokerDump returns the internal state of an IdleInvoker:
+// its use count and whether a call into the Cleaner is in flight. It
+// only reads; it must be called while no goroutine is inside a
+// critical section of the IdleInvoker (i.e., at quiescent points of
+// the model checker).
+func VerifIdleInvokerDump(i *IdleInvoker) (useCount uint, cleaning bool) {
+	return i.useCount, i.wakeup != nil
+}
